@@ -1,6 +1,7 @@
 import PqlModel.Props.C14
 import PqlModel.Props.C14Order
 import PqlModel.Props.C06Params
+import PqlModel.Props.IRHeadlines
 #print axioms Pql.C14.C14_no_conflicting_access
 #print axioms Pql.C14.C14_parameter_map_read_only
 #print axioms Pql.C14.C14_package_vars
@@ -10,3 +11,10 @@ import PqlModel.Props.C06Params
 #print axioms Pql.C14.C14_unused_param_irrelevant
 #print axioms Pql.C14.C14_unused_param_irrelevant_anywhere
 #print axioms Pql.C14.C14_condition_less_join_reads_true
+#print axioms Pql.IRHead.C14_map_order_ir
+#print axioms Pql.IRHead.C14_map_order_ir_needs_nodup
+#print axioms Pql.IRHead.C14_map_order_ir_needs_perm
+#print axioms Pql.IRHead.C14_param_perm_ir
+#print axioms Pql.IRHead.C14_nil_options_ir
+#print axioms Pql.IRHead.C14_unused_param_ir
+#print axioms Pql.IRHead.C14_on_translated_code
